@@ -30,6 +30,8 @@ def build(case):
     from cspuz import BoolGridFrame, Solver, graph
 
     s = Solver()
+    if case.get("used"):
+        gcheck.junk(s)
     fn = graph.active_edges_single_cycle if case["kind"] == "cycle" else graph.active_edges_single_path
     kw = {}
     if case["ugp"] != "default":
@@ -200,9 +202,18 @@ def cases_for(tier):
     return out
 
 
+def _small(c):
+    """Cases cheap enough to repeat on a Solver that is already in use."""
+    if "shape" in c:
+        return (c["shape"][0] + 1) * (c["shape"][1] + 1) <= 9
+    return c.get("n", 9) <= 3 and len(c.get("edges", ())) <= 4
+
+
 def prepare(tier):
     global _CASES
-    _CASES = cases_for(tier) + scale_cases(tier)
+    base_cases = cases_for(tier)
+    used = [dict(c, used=True) for c in base_cases[:: (7 if tier == "quick" else 3)] if _small(c)]
+    _CASES = base_cases + used + scale_cases(tier)
     return _CASES
 
 
